@@ -154,7 +154,7 @@ let run_assign_case (id : string) (c : Assign.case) (obs : Buffer.t) : bool =
   match p_run_ops c.dops { play = mk_layout (zr c.dexts); pbase = droot },
         (if c.sexts = [] then Some { play = []; pbase = sroot } else p_run_ops c.sops { play = mk_layout (zr c.sexts); pbase = sroot }) with
   | Some d, Some s ->
-      let need_src = List.mem c.what [ "assign"; "assign_const"; "assign_elems"; "assign_rv"; "assign_elems_named"; "swap"; "move" ] in
+      let need_src = List.mem c.what ([ "assign"; "assign_const"; "assign_elems"; "assign_rv"; "assign_elems_named"; "swap"; "move" ] @ Assign.copy_kinds2) in
       let dn = i (p_er_size d) in
       let ok =
         if need_src then x_sizes_eq (as_view d) (as_view s) && List.length d.play = List.length s.play
@@ -168,6 +168,7 @@ let run_assign_case (id : string) (c : Assign.case) (obs : Buffer.t) : bool =
         let m' =
           match c.what with
           | "assign" | "assign_const" | "assign_elems" | "assign_rv" | "assign_elems_named" -> p_assign_view padd peq (fun x -> x) d s m0
+          | w when List.mem w Assign.copy_kinds2 -> p_assign_view padd peq (fun x -> x) d s m0
           | "move" -> p_move_view padd peq d s m0
           | "swap" -> p_swap_views padd peq d s m0
           | "fill" -> p_fill_view padd peq (z (List.hd c.args)) d m0
